@@ -24,7 +24,8 @@ from vf import common
 CHECK = dict(
     id="C18", level="exploration",
     rule=("(instruction bytes, concrete state) pairs; bytes from an SDM-table encoder over ~330 "
-          "opcode entries x operand forms (reg, imm, [base+index*scale+disp], rip-relative, absolute, "
+          "opcode entries x operand forms (reg, imm, [base+index*scale+disp] with 12% stack-pointer bases, "
+          "rip-relative, absolute, "
           "8/16/32/64-bit, high-byte registers, LOCK/REP, redundant prefixes), from miasm's assembler "
           "on templates and from random bytes; all filtered by two reference disassemblers and a "
           "mnemonic allow-list; states from a boundary set + random, memory operands steered into a "
